@@ -58,7 +58,8 @@ func nodesJ(nodes []core_domain.CodeDataStruct, strip string) []interface{} {
 				ps = append(ps, []string{p.TypeType, p.TypeValue})
 			}
 			fj := map[string]interface{}{"Name": f.Name, "ReturnType": f.ReturnType, "Parameters": ps, "FunctionCalls": callsJ(f.FunctionCalls),
-				"Annotations": annosJ(f.Annotations), "Override": f.Override, "IsConstructor": f.IsConstructor, "Position": posJ(f.Position)}
+				"Annotations": annosJ(f.Annotations), "Override": f.Override, "IsConstructor": f.IsConstructor, "Position": posJ(f.Position),
+				"Modifiers": append([]string{}, f.Modifiers...), "IsReturnNull": f.IsReturnNull}
 			b, _ := json.Marshal(fj)
 			fs = append(fs, string(b))
 			fmap[string(b)] = fj
@@ -192,7 +193,19 @@ func javaFullFamily(c map[string]json.RawMessage) (interface{}, error) {
 		for _, i := range identifiers {
 			idk = append(idk, i.Package+"."+i.NodeName)
 		}
-		return map[string]interface{}{"nodes": nodesJ(nodes, dir+string(os.PathSeparator)), "identKeys": idk, "identifiers": nodesJ(identifiers, dir+string(os.PathSeparator))}, nil
+		res := map[string]interface{}{"nodes": nodesJ(nodes, dir+string(os.PathSeparator)), "identKeys": idk, "identifiers": nodesJ(identifiers, dir+string(os.PathSeparator))}
+		// ... and the reference counts `coca count` derives from that deps.json (compared between runs by C08: the order of the
+		// functions inside a type is not specified, the counts are)
+		if stdout, err := cocaCli(work, "count", "-d", filepath.Join(work, "coca_reporter", "deps.json"), "-t", "0"); err == nil {
+			rows := [][]string{}
+			for i, row := range tableRows(stdout, 2) {
+				if i > 0 {
+					rows = append(rows, row)
+				}
+			}
+			res["countRows"] = rows
+		}
+		return res, nil
 	}
 	// the pipeline of `coca analysis`: identifier pass over the tree, then the full pass
 	identApp := javaapp.NewJavaIdentifierApp()
